@@ -451,6 +451,11 @@ class MarkdownNormalizer(Renderer):
         # Nothing has been emitted for this item yet: a list that is its first child must not
         # open with a separator of its own (a paragraph or other block resets this flag).
         self._suppress_item_break = True
+        if not element.children:
+            # An empty item is still an item: emit its marker alone.
+            result += self._prefix.rstrip() + "\n"
+            self._prefix = self._second_prefix
+            self._suppress_item_break = False
         result += self.render_children(element)
 
         return result
